@@ -174,7 +174,7 @@ impl Segment {
             .log_reader
             .as_ref()
             .unwrap()
-            .load_batches_by_range_impl(index_range)
+            .load_batches_by_range_impl(index_range, self.start_offset)
             .await
             .with_error_context(|error| {
                 format!(
@@ -249,10 +249,11 @@ impl Segment {
 
     /// Loads and verifies message checksums from the log file.
     pub async fn load_message_checksums(&self) -> Result<(), IggyError> {
+        let start = self.start_offset;
         self.log_reader
             .as_ref()
             .unwrap()
-            .load_batches_by_range_with_callback(&IndexRange::max_range(), |batch| {
+            .load_batches_by_range_with_callback(&IndexRange::max_range(), start, |batch| {
                 for message in batch.into_messages_iter() {
                     let calculated_checksum = checksum::calculate(&message.payload);
                     trace!(
